@@ -1,5 +1,5 @@
 """C13 — log line formatting is bounded by the line limit and follows the format spec
-(DESIGN.md section 3, C13; defects D7 D7b D8 D8b D9 D9c D9d D9e)."""
+(DESIGN.md section 3, C13; defects D7 D7b D8 D8b D9 D9c D9d, all repaired in /repo)."""
 import os
 import vlib
 import fmtgen
@@ -36,7 +36,7 @@ def run(ctx):
                 "empty format, trailing newline, rendered length steered to max_line_length-1 +-3, ellipsis on/off, "
                 "max_line_length from 4..4096 incl. 255/256/257/511/512/513 and values the control API must refuse), "
                 "static/fset (qb_log_target_format_static, qb_log_format_set: formats and names of 255..600 bytes, %300N), "
-                "cut (_strcpy_cutoff incl. buf_len 0/1), log (qb_log_from_external_source through custom+file+syslog "
+                "cut (_strcpy_cutoff with buf_len >= 1, the domain its callers are proved to stay in), log (qb_log_from_external_source through custom+file+syslog "
                 "targets: empty / over-long expansions, trailing newline, extended-information marker, old callback); "
                 "a case is non-trivial if it reaches a full or empty line, an ellipsis, a refused length, a dangling or "
                 "unknown directive, right alignment, a width >= 1000, a format > 255 bytes, an empty/long/newline/marker "
